@@ -57,6 +57,19 @@ class Universe(object):
         return table
 
     def observed(self, expr):
+        """The tags are handed over in the ways callers do: a fresh list per question, ONE list object that is
+        refilled in place between the questions (a reused buffer), or other collections / one-shot iterators."""
+        mode = len(str(expr)) % 4
+        if mode == 1:
+            buf = []
+            out = []
+            for s in self.subsets:
+                buf[:] = s
+                out.append(bool(expr.check(buf)))
+            return tuple(out)
+        if mode == 2:
+            makers = (list, tuple, set, frozenset, iter, lambda s: (t for t in s))
+            return tuple(bool(expr.check(makers[i % len(makers)](s))) for i, s in enumerate(self.subsets))
         return tuple(bool(expr.check(list(s))) for s in self.subsets)
 
     def first_diff(self, want, got):
